@@ -42,7 +42,7 @@ Done1 == /\ pc = "done1"
 Msg == /\ pc = "msg"
        /\ IF Dead \/ Cur # P("msg", "enc4") THEN Fail ELSE Goto("fmt") /\ UNCHANGED params
 Fmt == /\ pc = "fmt"
-       /\ IF Dead \/ Cur.t # "fmt" \/ Cur.a \notin {"3ok", "badtype"} THEN Fail ELSE Goto("params") /\ UNCHANGED params
+       /\ IF Dead \/ Cur.t # "fmt" \/ Cur.a \notin {"3ok", "badtype", "vbnonce"} THEN Fail ELSE Goto("params") /\ UNCHANGED params
 Params == /\ pc = "params"
           /\ IF Dead \/ Cur.t # "params" THEN Fail
              ELSE pc' = "done5" /\ i' = i + 1 /\ params' = Cur /\ UNCHANGED <<flow, script, outcome>>
